@@ -104,7 +104,7 @@ impl PkgPath {
     pub closed spec fn short_b(&self) -> Seq<u8> { pbb(&self.short) }
     pub closed spec fn full_b(&self) -> Seq<u8> { pbb(&self.full) }
 //@ extract src/pkgpath.rs : impl PkgPath fn new
-//@ rewrite D6.pathbuf_from_str D6.path_components D6.pathbuf_from_lit D6.pathbuf_push_clone D6.pathbuf_from_component D6.pathbuf_push_component
+//@ rewrite D6.pathbuf_from_str D6.path_components D6.pathbuf_from_lit D6.pathbuf_push_clone D6.pathbuf_from_comp_osstr D6.pathbuf_push_component
     pub fn new(path: &str) -> (r: Result<Self, PkgPathError>)
         ensures r is Ok <==> pkgpath_ok(comps(encode_utf8(path@))),
             r is Ok ==> comps(r->Ok_0.short_b()) == seq![comps(encode_utf8(path@))[comps(encode_utf8(path@)).len() - 2], comps(encode_utf8(path@))[comps(encode_utf8(path@)).len() - 1]]
